@@ -17,11 +17,12 @@ THEOREMS = ["Rsp.Tie.C17.lockExprs_classified", "Rsp.Tie.C17.newrqref_protocol",
             "Rsp.Props.C17.tame_sendrq", "Rsp.Props.C17.tame_radsrv", "Rsp.Props.C17.tame_replyh",
             "Rsp.Props.C17.writerSlot_inv", "Rsp.Props.C17.writerScan_inv", "Rsp.Props.C17.newrequest_inv", "Rsp.Props.C17.writerPass_good",
             "Rsp.Props.C17.writerOp_good", "Rsp.Props.C17.step_good", "Rsp.Props.C17.initial_good", "Rsp.Props.C17.initialOk_sound",
-            "Rsp.Props.C17.udpRecv_good", "Rsp.Props.C17.tcpConn_good", "Rsp.Props.C17.history_good", "Rsp.Props.C17.history_counts", "Rsp.Props.C17.history_rmclient_clears"]
-RULE = ("histories over {request, retransmission, identifier reuse, reply, bogus reply, writer timer step, clock advance, connection reset, client disconnect} on 2-4 "
+            "Rsp.Props.C17.udpRecv_good", "Rsp.Props.C17.tcpConn_good", "Rsp.Props.C17.history_good", "Rsp.Props.C17.history_counts", "Rsp.Props.C17.history_rmclient_clears",
+            "Rsp.Props.C17.rmserver_good", "Rsp.Props.C17.history_rmserver_clears", "Rsp.Props.C17.gone_not_routed"]
+RULE = ("histories over {request, retransmission, identifier reuse, reply, bogus reply, writer timer step, clock advance, connection reset, client disconnect, server removal} on 2-4 "
         "associations and 1-3 servers, closed by disconnecting every client and running all timers out; after EVERY operation the real objects' reference counts are compared "
         "with the number of slots/cache entries/queue entries pointing at them; the mutex pairs (held, acquired) exhibited by the real code are checked against the ranked "
-        "hierarchy. non-trivial = history with a disconnect while requests were outstanding or queued")
+        "hierarchy. non-trivial = history with a disconnect or a server removal while requests were outstanding or queued")
 EXHAUSTIVE = {}
 ASSUMPTIONS = ["operations are executed one at a time (the real clientwr threads are stepped, the reader side is driven by the harness): interleavings inside an operation are not explored",
                "condition-variable waits and thread joins are outside the lock-rank argument"]
@@ -51,6 +52,7 @@ def build_refs(exe, rng, idx):
     for _ in range(rng.randrange(2, 5)):
         h.client()
     gone = set()
+    srvs = list(cfg.servers)      # servers whose writer has not left yet
     last = {}
     for step in range(rng.randrange(10, 40)):
         if h.s.dead:
@@ -78,12 +80,20 @@ def build_refs(exe, rng, idx):
                 h.send("reply %s %s" % (ent[0], h.make_reply(ent).hex()))
                 if rng.random() < 0.8:
                     h.outstanding.pop(i)
-        elif r < 0.68 and cfg.servers:
-            h.send("writer " + rng.choice(cfg.servers)["name"])
+        elif r < 0.68 and srvs:
+            h.send("writer " + rng.choice(srvs)["name"])
         elif r < 0.78:
             h.send("tick %d" % rng.choice([1, 1, 2, 3, 5, 10, 30, 61]))
-        elif r < 0.83 and cfg.servers:
-            h.send("reset " + rng.choice(cfg.servers)["name"])
+        elif r < 0.83 and srvs:
+            h.send("reset " + rng.choice(srvs)["name"])
+        elif r < 0.86 and srvs:
+            # server shutdown: the writer finds its reader gone and releases the server with whatever is queued or in flight there
+            sv = srvs.pop(rng.randrange(len(srvs)))
+            if any(e[0] == sv["name"] for e in h.outstanding):
+                h.tag("server-removed-with-outstanding")
+            h.outstanding = [e for e in h.outstanding if e[0] != sv["name"]]
+            h.send("rmserver " + sv["name"])
+            h.tag("server-removed")
         elif r < 0.92 and live:
             k = rng.choice(live)
             out = h.send("rmclient %d" % k)
@@ -102,7 +112,7 @@ def build_refs(exe, rng, idx):
         if h.s.dead:
             break
         h.send("tick 100")
-        for s in cfg.servers:
+        for s in srvs:
             h.send("writer " + s["name"])
     h.send("idle")
     h.send("locks")
@@ -120,4 +130,4 @@ def gen(rng, tier):
 
 
 def nontrivial(c):
-    return bool(c.tags.get("disconnect-with-outstanding"))
+    return bool(c.tags.get("disconnect-with-outstanding")) or bool(c.tags.get("server-removed-with-outstanding"))
